@@ -807,3 +807,119 @@ Proof.
   - rewrite (nth_overflow (col 0 c rs)) by (rewrite wf_col_length; lia).
     rewrite (nth_overflow rs) by lia. destruct c; reflexivity.
 Qed.
+
+(* ========================================================================================== *)
+(* 5. the epoch / minibatch loop                                                               *)
+(* ========================================================================================== *)
+From Coq Require Import Permutation.
+
+Lemma chunks_fuel_concat B : (1 <= B)%nat -> forall fuel l, (length l <= fuel)%nat ->
+  concat (chunks_fuel fuel B l) = l.
+Proof.
+  intros HB. induction fuel as [|f IH]; intros l Hl.
+  - destruct l; [reflexivity|cbn in Hl; lia].
+  - destruct l as [|x l]; [reflexivity|].
+    cbn [chunks_fuel concat]. rewrite IH.
+    + apply firstn_skipn.
+    + rewrite skipn_length. cbn [length] in *. lia.
+Qed.
+
+Lemma chunks_concat_lemma B l : (1 <= B)%nat -> concat (chunks B l) = l.
+Proof. intros HB. apply chunks_fuel_concat; auto. Qed.
+
+Lemma chunks_fuel_bound B : (1 <= B)%nat -> forall fuel l,
+  Forall (fun c => (1 <= length c <= B)%nat) (chunks_fuel fuel B l).
+Proof.
+  intros HB. induction fuel as [|f IH]; intros l; [constructor|].
+  destruct l as [|x l]; [constructor|]. cbn [chunks_fuel]. constructor; [|apply IH].
+  rewrite firstn_length. cbn [length]. lia.
+Qed.
+
+Lemma chunks_bound_lemma B l : (1 <= B)%nat -> Forall (fun c => (1 <= length c <= B)%nat) (chunks B l).
+Proof. intros; apply chunks_fuel_bound; auto. Qed.
+
+(* all minibatches of an epoch but the last have exactly batch_size rows *)
+Lemma chunks_fuel_full B : (1 <= B)%nat -> forall fuel l, (length l <= fuel)%nat ->
+  forall i, (S i < length (chunks_fuel fuel B l))%nat -> length (nth i (chunks_fuel fuel B l) []) = B.
+Proof.
+  intros HB. induction fuel as [|f IH]; intros l Hl i Hi; [cbn in Hi; lia|].
+  destruct l as [|x l]; [cbn in Hi; lia|]. cbn [chunks_fuel] in *. cbn [length] in Hi.
+  destruct i as [|i].
+  - cbn [nth]. rewrite firstn_length.
+    destruct (Nat.le_gt_cases B (length (x :: l))) as [Hle|Hgt]; [lia|].
+    (* fewer than B elements: the rest is empty, so there is no second chunk *)
+    rewrite skipn_all2 in Hi by lia. destruct f; cbn in Hi; lia.
+  - cbn [nth]. apply IH; [rewrite skipn_length; cbn [length] in *; lia|lia].
+Qed.
+
+Lemma map_nth_seq_id (l : list nat) : map (fun i => nth i l 0%nat) (seq 0 (length l)) = l.
+Proof.
+  induction l as [|x l IH]; [reflexivity|].
+  cbn [length seq map nth]. f_equal. rewrite <- seq_shift, map_map. exact IH.
+Qed.
+
+Lemma apply_perm_permutation p l : Permutation p (seq 0 (length l)) -> Permutation (apply_perm p l) l.
+Proof.
+  intros H. unfold apply_perm.
+  eapply Permutation_trans; [apply Permutation_map; exact H|].
+  rewrite map_nth_seq_id. apply Permutation_refl.
+Qed.
+
+Lemma epochs_visit_every_row_once B : (1 <= B)%nat -> forall perms idxs,
+  Forall (fun p => Permutation p (seq 0 (length idxs))) perms ->
+  Forall (fun ep => Permutation (concat ep) idxs /\ Forall (fun c => (1 <= length c <= B)%nat) ep) (epochs_idx B perms idxs).
+Proof.
+  intros HB. induction perms as [|p ps IH]; intros idxs H; [constructor|].
+  pose proof (Forall_inv H) as Hp. pose proof (Forall_inv_tail H) as Hps. cbn beta in Hp.
+  pose proof (apply_perm_permutation p idxs Hp) as Pp.
+  cbn [epochs_idx]. constructor.
+  - split; [rewrite chunks_concat_lemma by exact HB; exact Pp|apply chunks_bound_lemma; exact HB].
+  - assert (Hlen : length (apply_perm p idxs) = length idxs) by (apply Permutation_length; exact Pp).
+    specialize (IH (apply_perm p idxs)). rewrite Hlen in IH. specialize (IH Hps).
+    eapply Forall_impl; [|exact IH]. intros ep [P1 P2]. split; [|exact P2].
+    eapply Permutation_trans; [exact P1|exact Pp].
+Qed.
+
+Lemma learn_minibatches_lemma N B perms : (1 <= B)%nat ->
+  Forall (fun p => Permutation p (seq 0 N)) perms ->
+  Forall (fun ep => Permutation (concat ep) (seq 0 N) /\ Forall (fun c => (1 <= length c <= B)%nat) ep)
+         (learn_minibatch_idxs N B perms).
+Proof.
+  intros HB H. unfold learn_minibatch_idxs. apply epochs_visit_every_row_once; [exact HB|].
+  rewrite seq_length. exact H.
+Qed.
+
+Lemma learn_minibatches_count N B perms : length (learn_minibatch_idxs N B perms) = length perms.
+Proof.
+  unfold learn_minibatch_idxs. generalize (seq 0 N). induction perms as [|p ps IH]; intros l; cbn; auto.
+Qed.
+
+Lemma minibatch_slices_lemma : forall B l, (1 <= B)%nat ->
+  concat (chunks B l) = l /\
+  forall i, (S i < length (chunks B l))%nat -> length (nth i (chunks B l) []) = B.
+Proof. intros B l HB. split; [exact (chunks_concat_lemma B l HB)|exact (chunks_fuel_full B HB (length l) l (le_n _))]. Qed.
+
+(* normalising the advantages of a minibatch changes their values, not the rows they sit in *)
+Lemma gather_length {A} (d : A) idx l : length (gather d idx l) = length idx.
+Proof. apply map_length. Qed.
+
+Lemma minibatch_body_lemma m s idx a b c d e f j :
+  length b = length a -> length c = length a -> length d = length a -> length e = length a -> length f = length a ->
+  Forall (fun i => (i < length a)%nat) idx -> (j < length idx)%nat ->
+  let i := nth j idx 0%nat in
+  let batch_advs := gather 0 idx d in
+  nth j (minibatch_body m s idx a b c d e f) dflt6 =
+    (nth i a 0%Z, nth i b 0%Z, nth i c 0%Z, (nth i d 0 - m batch_advs) * s batch_advs, nth i e 0, nth i f 0).
+Proof.
+  intros Lb Lc Ld Le Lf Hi Hj i batch_advs. unfold minibatch_body.
+  rewrite combine6_nth by (unfold norm_adv; rewrite ?map_length, ?gather_length; auto).
+  unfold norm_adv. fold batch_advs.
+  assert (G : forall {X} (dx : X) (l : list X), nth j (gather dx idx l) dx = nth i l dx).
+  { intros X dx l. unfold gather, i.
+    rewrite nth_indep with (d' := (fun k => nth k l dx) 0%nat) by (rewrite map_length; exact Hj).
+    exact (map_nth (fun k => nth k l dx) idx 0%nat j). }
+  rewrite !G.
+  rewrite nth_indep with (d' := (fun x => (x - m batch_advs) * s batch_advs) 0) by (rewrite map_length; unfold batch_advs; rewrite gather_length; exact Hj).
+  rewrite (map_nth (fun x => (x - m batch_advs) * s batch_advs) batch_advs 0 j).
+  unfold batch_advs at 1. rewrite G. reflexivity.
+Qed.
